@@ -108,7 +108,7 @@ def main():
             "guard": "BXDECAY0_VERIF",
             "enable": "checks compile /repo's sources themselves with -DBXDECAY0_VERIF (Makefile SUT_DEF, also given to the simulator's own objects so that both see one layout); one source hook: guard cells around bbpars::spthe1/spthe2, poisoned under AddressSanitizer (bb.h, bb.cc); every other seam is the public API, an environment variable or a link-time --wrap",
             "baseline_off_cmd": "cmake -G Ninja -S /repo -B /repo/_build && cmake --build /repo/_build && ctest --test-dir /repo/_build -j8 --timeout 900",
-            "source_commits": ["15aefde1e065614f967a84d735a5aff445a92f28"],
+            "source_commits": ["15aefde1e065614f967a84d735a5aff445a92f28", "b01b324c9ab340ea3d1b84da5a4bb19034ba4d8b"],
             "add_only": True,
         },
         "engines": [{"name": "bxsim", "path": "/verif/sim", "serves_properties": [c["property_id"] for c in checks],
